@@ -58,7 +58,8 @@ RULE = ("worlds of 1..6 .rtdc files with basin definitions between them: all "
         "referrer, dangling; declared or undeclared feature lists; same and "
         "mapped (basinmapN) event mapping; hash keys and colliding custom "
         "keys; root opened through new_dataset (RTDC_HDF5), RTDC_HTTP and "
-        "RTDC_S3 (boto3, unsigned) on 127.0.0.1. Non-trivial: at least one basin is followed from the "
+        "RTDC_S3 (boto3, unsigned) on 127.0.0.1, directly or as hierarchy "
+        "child / grandchild; four orders of access. Non-trivial: at least one basin is followed from the "
         "root; distinct = different case dict")
 TRUSTED_BASE = [
     "availability oracle: a location is available iff the generator created "
@@ -348,6 +349,7 @@ def _alarm(signum, frame):
         with open(os.environ["C14_DEBUG"], "a") as fd:
             fd.write("==== timeout in pid %d\n" % os.getpid())
             faulthandler.dump_traceback(file=fd, all_threads=True)
+    _W["timed_out"] = True
     raise CaseTimeout()
 
 
@@ -378,9 +380,13 @@ def observe(case, base, port):
     root = case["root"]
     rootpath = os.path.join(base, "data", file_relpath(case, root["file"]))
     h5py.File = RecFile
+    # dclab swallows BaseException in some places: the timer keeps firing
+    # (every 0.5 s after the limit) until the exception gets through
+    _W["timed_out"] = False
     signal.signal(signal.SIGALRM, _alarm)
-    signal.alarm(TIME_LIMIT)
+    signal.setitimer(signal.ITIMER_REAL, TIME_LIMIT, 0.5)
     ds = None
+    parents = []
     try:
         if root["fmt"] == "hdf5":
             ds = dclab.new_dataset(rootpath)
@@ -395,6 +401,10 @@ def observe(case, base, port):
                 port[0], port[1],
                 file_relpath(case, root["file"]).replace(os.sep, "/"))
             ds = fmt_http.RTDC_HTTP(url)
+        # hierarchy children (of children) of the root dataset
+        for _ in range(case.get("hier", 0)):
+            parents.append(ds)
+            ds = dclab.new_dataset(ds)
 
         def obs_listing():
             try:
@@ -460,14 +470,17 @@ def observe(case, base, port):
         res["status"] = 2
         res["error"] = repr(e)
     finally:
-        signal.alarm(0)
+        signal.setitimer(signal.ITIMER_REAL, 0)
+        if _W.get("timed_out"):
+            res["status"] = 1
         h5py.File = orig_file
         os.chdir(old_cwd)
-        try:
-            if ds is not None:
-                ds.close()
-        except BaseException:
-            pass
+        for d in [ds] + parents[::-1]:
+            try:
+                if d is not None:
+                    d.close()
+            except BaseException:
+                pass
     ids = set()
     for p in opened:
         p = os.path.realpath(os.path.join(cwd, p))
@@ -478,6 +491,66 @@ def observe(case, base, port):
             ids.add(99)      # some other local file
     res["touched"] = sorted(ids)
     return res
+
+
+def observe_in_child(case, base, port):
+    """observe() in a forked child that is killed when it exceeds the time
+    limit (dclab catches BaseException in places, so an exception raised by
+    a timer inside the process may take very long to get through)."""
+    import select
+    r, w = os.pipe()
+    pid = os.fork()
+    if pid == 0:
+        code = 0
+        try:
+            os.close(r)
+            res = observe(case, base, port)
+            data = json.dumps(res).encode()
+            while data:
+                n = os.write(w, data)
+                data = data[n:]
+        except BaseException:
+            code = 1
+        finally:
+            os._exit(code)
+    os.close(w)
+    buf = b""
+    t_end = time.time() + TIME_LIMIT + 2.5
+    alive = True
+    try:
+        while True:
+            left = t_end - time.time()
+            if left <= 0:
+                break
+            ready, _, _ = select.select([r], [], [], left)
+            if not ready:
+                break
+            chunk = os.read(r, 65536)
+            if not chunk:
+                alive = False
+                break
+            buf += chunk
+    finally:
+        os.close(r)
+        if alive:
+            try:
+                os.kill(pid, signal.SIGKILL)
+            except OSError:
+                pass
+        try:
+            os.waitpid(pid, 0)
+        except OSError:
+            pass
+    if not alive and buf:
+        try:
+            return json.loads(buf.decode())
+        except ValueError:
+            pass
+    if alive:
+        return dict(status=1, fb=[], contains=[], source=[], touched=[],
+                    followed=0, killed=True)
+    return dict(status=2, fb=[], contains=[], source=[], touched=[],
+                followed=0, error="observer process died")
 
 
 def _force(ds, depth):
@@ -543,8 +616,9 @@ def render(case, keyorder):
             rid_lit(file_rid(f)), common.zlist(sorted(f["innate"])),
             common.zlist(sorted(f["internal"])), common.clist(bs)))
     fm = {"hdf5": "FHdf5", "http": "FHttp", "s3": "FS3"}[case["root"]["fmt"]]
-    return "(%s, %s, %d%%nat)" % (common.clist(files), fm,
-                                  case["root"]["file"])
+    return "(%s, %s, %d%%nat, %d%%nat)" % (common.clist(files), fm,
+                                           case["root"]["file"],
+                                           case.get("hier", 0))
 
 
 # --------------------------------------------------------------------------
@@ -719,6 +793,17 @@ def oracle(case, res):
         if c != want:
             return ("'userdef%d' in ds is %s, innate/features_basin say %s"
                     % (ft, bool(c), bool(want)), None)
+    # a definition's feature list restricts what its basin offers
+    decl = [b["feats"] for b in rootf["basins"]]
+    if all(d is not None for d in decl):
+        union = set(x for d in decl for x in d)
+        got = set(res["fb"]) | set(
+            ft for ft, src in enumerate(res["source"])
+            if src >= 0 and ft not in rootf["innate"])
+        if not got <= union:
+            return ("userdef%s offered although every basin definition of "
+                    "the root declares a feature list without it" % sorted(
+                        got - union), None)
     excess = sorted(set(res["fb"]) - J[start])
     if excess:
         J2, _ = spec_justified(case, remote_always_match=True)
@@ -867,7 +952,8 @@ def gen_case(rng, max_files=6):
     if net_root:
         rootfmt = "s3" if rng.random() < 0.15 else "http"
     return dict(root=dict(fmt=rootfmt, file=0), files=files,
-                proto=rng.choice([0, 0, 1, 2, 3]))
+                proto=rng.choice([0, 0, 1, 2, 3]),
+                hier=rng.choice([0, 0, 0, 1, 2]))
 
 
 def graph_cases(n, rng, variants):
@@ -908,7 +994,18 @@ def graph_case(n, edges, var, rng):
             b = _basin(kind, [("here", j)], None,
                        1 if ids == "chain-prefix" else 0)
         files[i]["basins"].append(b)
-    return dict(root=dict(fmt=fmt, file=0), files=files)
+    return dict(root=dict(fmt=fmt, file=0), files=files,
+                hier=1 if ids == "odd-one" else 0)
+
+
+def pre_build(run):
+    """Regenerate coq/Gen/BasinFlags.v from the tree under test."""
+    from .translators import basin_flags
+    try:
+        basin_flags.generate(common.REPO)
+    except Exception:
+        basin_flags.remove()
+        raise
 
 
 def load_corpus():
@@ -927,9 +1024,11 @@ def load_corpus():
 _W = {}
 
 
-def _worker_init(scratch, ports):
+def _worker_init(scratch, ports, tcount=None, tmax=None):
     import warnings
     warnings.simplefilter("ignore")
+    _W["tcount"] = tcount
+    _W["tmax"] = tmax
     base = os.path.join(scratch, "w%d" % os.getpid())
     os.makedirs(base, exist_ok=True)
     _W["base"] = base
@@ -953,7 +1052,7 @@ def run_one(case):
         urlroot = "%s/c%d/data" % (_W["rel"], _W["n"])
         paths, keyorder = write_world(case, base, (port, urlroot))
         t0 = time.time()
-        res = observe(case, base, (port, urlroot))
+        res = observe_in_child(case, base, (port, urlroot))
         res["elapsed"] = round(time.time() - t0, 2)
     finally:
         shutil.rmtree(base, ignore_errors=True)
@@ -963,8 +1062,20 @@ def run_one(case):
 def _work(chunk):
     out = []
     for case in chunk:
+        tc = _W.get("tcount")
+        if tc is not None and tc.value >= _W["tmax"]:
+            # enough cases of this run did not terminate: stop evaluating
+            out.append(SKIPPED)
+            continue
         try:
-            out.append(run_one(case))
+            r = run_one(case)
+            if tc is not None and (r[0]["status"] == 1 or any(
+                    "RecursionError" in str(r[0].get(k, "")) for k in
+                    ("fb_error", "contains_error", "source_error",
+                     "error"))):
+                with tc.get_lock():
+                    tc.value += 1
+            out.append(r)
         except BaseException as e:
             out.append((dict(status=3, fb=[], contains=[], source=[],
                              touched=[], followed=0, error=repr(e)), None))
@@ -975,9 +1086,11 @@ SKIPPED = (dict(status=4, fb=[], contains=[], source=[], touched=[],
                 followed=0), None)
 
 
-def run_cases(scratch, cases, nproc=None, budget=None):
+def run_cases(scratch, cases, nproc=None, budget=None, max_timeouts=None):
     """Evaluate the cases in worker processes.  `budget` (seconds): cases
-    whose chunk has not finished by then are returned as SKIPPED."""
+    whose chunk has not finished by then are returned as SKIPPED; so are
+    the cases not yet started when `max_timeouts` cases have run into the
+    per-case time limit."""
     nproc = nproc or min(common.NCPU, 16)
     ctx = multiprocessing.get_context("fork")
     chunks = []
@@ -988,8 +1101,9 @@ def run_cases(scratch, cases, nproc=None, budget=None):
     t_end = None if budget is None else time.time() + budget
     procs, ports = start_servers(scratch, 1 if nproc == 1 else 4)
     try:
+        tcount = ctx.Value("i", 0) if max_timeouts else None
         with ctx.Pool(nproc, initializer=_worker_init,
-                      initargs=(scratch, ports)) as pool:
+                      initargs=(scratch, ports, tcount, max_timeouts)) as pool:
             asyncs = [pool.apply_async(_work, (ch,)) for ch in chunks]
             for ch, a in zip(chunks, asyncs):
                 limit = TIME_LIMIT * len(ch) + 120
@@ -1012,13 +1126,24 @@ def run_cases(scratch, cases, nproc=None, budget=None):
 
 
 # --------------------------------------------------------------------------
+_T0 = time.time()
+
+
+def _dbg(msg):
+    if os.environ.get("C14_TIMING"):
+        sys.stderr.write("[c14 %.1fs] %s\n" % (time.time() - _T0, msg))
+
+
 def check_cases(run, cases, record=True):
     results = run_cases(run.scratch, cases,
-                        budget=1000 if run.thorough else 200)
+                        budget=1000 if run.thorough else 200,
+                        max_timeouts=12 if run.thorough else 3)
+    _dbg("stage 1 done")
     skipped = set(k for k, r in enumerate(results) if r[0]["status"] == 4)
     if skipped:
         run.notes.append("%d of %d cases not evaluated (time budget of the "
-                         "tier used up)" % (len(skipped), len(cases)))
+                         "tier used up, or several cases did not terminate)"
+                         % (len(skipped), len(cases)))
         run.count("skipped-time-budget", len(skipped))
         cases = [c for k, c in enumerate(cases) if k not in skipped]
         results = [r for r in results if r[0]["status"] != 4]
@@ -1027,12 +1152,13 @@ def check_cases(run, cases, record=True):
     def model_of(idx):
         rendered = [render(cases[k], results[k][1]) for k in idx]
         return dict(zip(idx, common.coq_map(
-            run.scratch, "c14_%d" % len(idx), HEADER, "run_flat", rendered,
+            run.scratch, "c14_%d" % len(idx), HEADER, "run_flat_h", rendered,
             shard=200)))
 
     idx = [k for k in range(len(cases)) if results[k][1] is not None
            and results[k][0]["status"] != 3]
     model = model_of(idx)
+    _dbg("model done")
     # Timeouts, disagreements and unknown oracle failures are re-run once
     # (4 workers, quiet machine): a loaded machine can make a loopback
     # request miss dclab's 0.5 s / 1 s socket timeouts.
@@ -1044,7 +1170,10 @@ def check_cases(run, cases, record=True):
                 f is not None and f[1] not in known):
             again.append(k)
     # (only a bounded number: a systematic failure does not need it)
-    again = again[:24]
+    tmo = [k for k in again if results[k][0]["status"] == 1]
+    rec = [k for k in again if "RecursionError" in json.dumps(results[k][0])]
+    again = [k for k in again if k not in tmo and k not in rec][:16] \
+        + tmo[:2] + rec[:2]
     if again:
         redo = run_cases(run.scratch, [cases[k] for k in again], nproc=8,
                          budget=90)
@@ -1054,12 +1183,14 @@ def check_cases(run, cases, record=True):
                     run.count("unstable-observation")
                 results[k] = r
         run.count("re-run", len(again))
+    _dbg("re-run done (%d)" % len(again))
     for k, case in enumerate(cases):
         res, keyorder = results[k]
         if record:
             run.record_case(case, res.get("followed", 0) > 0)
             run.count("root:%s" % case["root"]["fmt"])
             run.count("files=%d" % len(case["files"]))
+            run.count("hier=%d" % case.get("hier", 0))
             for f in case["files"]:
                 run.count("rid:%s" % f["ridmode"])
                 for b in f["basins"]:
@@ -1133,7 +1264,11 @@ def shrink(run, failure):
         return failure
     changed = True
     rounds = 0
-    t_end = time.time() + 150      # wall budget of the minimisation
+    # wall budget of the minimisation (each probe of a non-terminating
+    # case costs the full per-case limit)
+    slow = any(x in failure.get("desc", "") for x in
+               ("did not finish", "RecursionError"))
+    t_end = time.time() + (30 if slow else 90)
     while changed and rounds < 6 and time.time() < t_end:
         changed = False
         rounds += 1
@@ -1180,7 +1315,8 @@ def shrink(run, failure):
                     break
             if changed:
                 break
-    f = _fails(run, case)
+    _dbg("shrink done")
+    f = None if slow else _fails(run, case)
     return dict(case=case, desc=f[0] if f else failure["desc"], finding=want)
 
 
